@@ -316,6 +316,7 @@ func checkC14(c *Ctx) {
 
 	c.c14Identity(sm, units)
 	c.c14ListOrder(handlers)
+	c.c14ReadThrough()
 	c.c14Name(handlers, mgr, mbfa)
 	c.c14Routes()
 	c.c14Fields(handlers)
